@@ -329,6 +329,18 @@ def describe(case):
             return {"iface": "Vm::eval", "expr": "(%s %s)" % (PROCS[case[1]], " ".join(show(a) for a in dec_args(case[2:])))}
         if iface == 13:
             return {"iface": "Rational32", "op": case[1], "raw": case[2:]}
+        if iface == 14:
+            nums = dec_args(case[3:])
+            return {"iface": "Number api, all representations", "op": BIN_OPS[case[1]],
+                    "a": [show(x) for x in nums[:case[2]]], "b": [show(x) for x in nums[case[2]:]]}
+        if iface == 15:
+            a, b = dec_args(case[1:])
+            return {"iface": "Number api == partial_cmp < <= > >=", "a": show(a), "b": show(b)}
+        if iface == 16:
+            return {"iface": "Vm::eval of = < > <= >= min max", "args": [show(x) for x in dec_args(case[1:])]}
+        if iface == 17:
+            return {"iface": "Vm::eval of = < > <= >= on (a b) (b c) (a c) (a b c)",
+                    "args": [show(x) for x in dec_args(case[1:])]}
     except Exception as e:  # noqa
         return {"raw": case, "error": repr(e)}
     return {"raw": case}
